@@ -131,7 +131,9 @@ def catalogue(name):
     n1 = 6
     if name == "neg2":
         full = catalogue("q")
-        cat = [dict(full["cat"][i]) for i in (7, 27, 0, 10)]
+        def pick(**kw):
+            return next(dict(c) for c in full["cat"] if all(c.get(k) == v for k, v in kw.items()))
+        cat = [pick(t="pos", o=2, p=1, ko=[2]), pick(t="size", o=2, p=3, pr=[4]), pick(t="gc", o=2, sd=[1]), pick(t="size", o=2, p=1, pr=[2], goff=[0])]
         for i, c in enumerate(cat, start=1):
             c["id"] = i
         return {"ed": full["ed"], "vol": full["vol"], "specs": [[full["specs"][0][4]], [full["specs"][1][2]]], "cat": cat}
@@ -172,6 +174,9 @@ def catalogue(name):
                 {"t": "pos", "o": o, "p": 1, "ax": [1], "ko": [4], "kp": [4], "m": [0], "gm": [-1]},
                 {"t": "size", "o": o, "p": 1, "ax": [1], "oax": [1], "pr": [2], "off": [0], "goff": [0]},
                 {"t": "size", "o": o, "p": 1, "ax": [1], "oax": [1], "pr": [4], "off": [-8], "goff": [0]},
+                # real AND grid offsets on the same axis (they add up)
+                {"t": "pos", "o": o, "p": 1, "ax": [1], "ko": [0], "kp": [0], "m": [4], "gm": [1]},
+                {"t": "size", "o": o, "p": 1, "ax": [1], "oax": [1], "pr": [2], "off": [2], "goff": [-1]},
             ]
         for o, p in ((2, 3), (3, 2)):
             cat += [
@@ -182,6 +187,9 @@ def catalogue(name):
                 {"t": "size", "o": o, "p": p, "ax": [1], "oax": [1], "pr": [2], "off": [2], "goff": [0]},
                 {"t": "ext", "o": o, "p": p, "a": 1, "d": 2, "kp": 0, "off": 0, "goff": 0},
                 {"t": "ext", "o": o, "p": p, "a": 1, "d": 1, "kp": 4, "off": 6, "goff": 0},
+                # real AND grid offsets on the same axis
+                {"t": "pos", "o": o, "p": p, "ax": [1], "ko": [0], "kp": [4], "m": [-2], "gm": [1]},
+                {"t": "ext", "o": o, "p": p, "a": 1, "d": 2, "kp": 0, "off": -2, "goff": 2},
             ]
         if na == 2:
             for o, p in ((2, 3), (3, 2), (2, 1)):
@@ -189,6 +197,7 @@ def catalogue(name):
                     {"t": "size", "o": o, "p": p, "ax": [2], "oax": [1], "pr": [4], "off": [0], "goff": [0]},      # cross-axis
                     {"t": "size", "o": o, "p": p, "ax": [1, 2], "oax": [2, 1], "pr": [4, 2], "off": [0, 0], "goff": [0, 1]},
                     {"t": "pos", "o": o, "p": p, "ax": [1, 2], "ko": [2, 0], "kp": [2, 4], "m": [0, 0], "gm": [0, 0]},
+                    {"t": "pos", "o": o, "p": p, "ax": [2, 1], "ko": [0, 4], "kp": [0, 4], "m": [4, -4], "gm": [-1, 1]},
                 ]
             for o in (2, 3):
                 cat += [
@@ -237,7 +246,7 @@ if __name__ == "__main__":
 
 # ----------------------------------------------------------------------------------------------------------
 # check-module plumbing shared by checks/C26.py and checks/C27.py
-CODE_FLAGS = {"eb": True, "sk": True}  # the trace spec's own run models the code as it is
+CODE_FLAGS = {"eb": False, "sk": False}  # the trace spec's own run models the code as it is (both defects fixed in /repo 62bc410)
 
 # minimal systems for the two order/soundness defects found with the model (kept as seeded regression inputs)
 def regression_systems():
@@ -249,7 +258,7 @@ def regression_systems():
         {"t": "gc", "o": 2, "ax": [1], "sd": [1], "co": [0]},
         {"t": "pos", "o": 3, "p": 4, "ax": [1], "ko": [0], "kp": [4], "m": [0], "gm": [0]}]}
     cat = catalogue("q")
-    skip = {"ed": cat["ed"], "objs": [cat["vol"], cat["specs"][0][4], cat["specs"][1][2]], "cons": [cat["cat"][7], cat["cat"][27]]}
+    skip = {"ed": cat["ed"], "objs": [cat["vol"], cat["specs"][0][4], cat["specs"][1][2]], "cons": [c for c in cat["cat"] if (c["t"], c["o"], c["p"] if "p" in c else 0) in (("pos", 2, 1), ("size", 2, 3)) and c.get("ko", [2]) == [2] and c.get("pr", [4]) == [4] and c.get("gm", [0]) == [0]]}
     return [("reg-earlybreak", early), ("reg-staticpos", skip)]
 
 
@@ -293,12 +302,23 @@ def random_system(rng):
                 cons.append({"t": "size", "o": o, "p": p, "ax": [a], "oax": [rng.choice([a, a, 3 - a])], "pr": [rng.choice([4, 2, 4, 1])],
                              "off": [rng.choice([0, 0, -4, 2])], "goff": [0 if stretched else rng.choice([0, 0, -1])]})
             elif t == "ext":
-                cons.append({"t": "ext", "o": o, "p": rng.choice([0, p]), "a": a, "d": rng.choice([1, 2]), "kp": rng.choice([0, 4, 2]), "off": rng.choice([0, 0, 2, -4]), "goff": 0})
+                cons.append({"t": "ext", "o": o, "p": rng.choice([0, p]), "a": a, "d": rng.choice([1, 2]), "kp": rng.choice([0, 4, 2]), "off": rng.choice([0, 0, 2, -4]), "goff": 0 if stretched else rng.choice([0, 0, 1, -1])})
             elif t == "gc":
                 cons.append({"t": "gc", "o": o, "ax": [a], "sd": [rng.choice([1, 2])], "co": [rng.randint(0, 6)]})
             else:
                 cons.append({"t": "rc", "o": o, "ax": [a], "sd": [rng.choice([1, 2])], "co": [rng.randint(-14, 14)]})
     return {"ed": ed, "objs": objs, "cons": cons}
+
+
+def _has_both(c):
+    """a constraint whose real and grid offsets are both non-zero on one axis (the code adds them)"""
+    if c["t"] == "pos":
+        return any(m and g for m, g in zip(c["m"], c["gm"]))
+    if c["t"] == "size":
+        return any(m and g for m, g in zip(c["off"], c["goff"]))
+    if c["t"] == "ext":
+        return bool(c["off"] and c["goff"])
+    return False
 
 
 def gen_cases(ctx, want):
@@ -310,7 +330,9 @@ def gen_cases(ctx, want):
     keep2 = 0.03 if ctx.quick else 1.0
     for sid, s in enumerate_systems(cat, 2):
         k = len(s["cons"])
-        if (k == 2 and rng.random() > keep2) or (ctx.quick and k == 1 and rng.random() > 0.5):
+        both = any(_has_both(c) for c in s["cons"])
+        drop = (k == 2 and rng.random() > (0.06 if (both and ctx.quick) else keep2)) or (ctx.quick and k == 1 and not both and rng.random() > 0.5)
+        if drop:
             continue
         out.append(("q-" + sid, s))
     if not ctx.quick:
@@ -365,12 +387,12 @@ def classify(record, verdict):
 
 def model_check(ctx):
     if ctx.quick:
-        ctx.mc("Place", "MC_Place_q.cfg", label="all systems volume(6 cells)+2 objects without static specs, <=2 constraints of 38: scheduled run + all per-iteration constraint orders")
-        ctx.mc("Place", "MC_Place_q1.cfg", label="all 15 static-spec combinations (grid/real shape, real position) x <=1 constraint of 38")
+        ctx.mc("Place", "MC_Place_q.cfg", label="all systems volume(6 cells)+2 objects without static specs, <=2 constraints of 46: scheduled run + all per-iteration constraint orders")
+        ctx.mc("Place", "MC_Place_q1.cfg", label="all 15 static-spec combinations (grid/real shape, real position) x <=1 constraint of 46")
     else:
-        ctx.mc("Place", "MC_Place_t.cfg", label="1 axis, all 15 static-spec combinations, <=2 constraints of 38")
-        ctx.mc("Place", "MC_Place_t2.cfg", label="2 axes 6x4 incl. cross-axis size and 2-axis constraints, <=2 constraints of 59")
-        ctx.mc("Place", "MC_Place_t3.cfg", label="1 axis, 4 static-spec combinations, <=3 constraints of 38")
+        ctx.mc("Place", "MC_Place_t.cfg", label="1 axis, all 15 static-spec combinations, <=2 constraints of 46")
+        ctx.mc("Place", "MC_Place_t2.cfg", label="2 axes 6x4 incl. cross-axis size and 2-axis constraints, <=2 constraints of 64")
+        ctx.mc("Place", "MC_Place_t3.cfg", label="1 axis, 4 static-spec combinations, <=3 constraints of 46")
     ctx.mc_negative("Place", "MC_Place_neg.cfg")    # code's early loop exit: Soundness/Confluence fail (4 objects)
     ctx.mc_negative("Place", "MC_Place_neg2.cfg")   # code's skipping of static positions on resolved axes: Confluence fails
     ctx.assumptions += [
